@@ -1,4 +1,5 @@
 import Evl.Lemmas.DispatchGhost
+import Evl.Props.C03
 import Evl.Lemmas.RegistryInv
 /-!
 # C01 — every registered pipeline of the event's type sees the event, in node order
